@@ -52,6 +52,17 @@ func (fc *FuncCtx) sortOfTypeName(name string, sc *specCtx) (*Sort, types.Type) 
 		if objs := fc.localsByName[vn]; len(objs) >= 1 {
 			return fc.sortOf(objs[0].Type()), objs[0].Type()
 		}
+		// typeof(expr): the Go type of a specification expression (e.g. a field path) in the entry state
+		if fc.entry != nil && sc != nil {
+			if ex, err := parseSpecExpr(vn); err == nil {
+				fc.noOblig++
+				v := fc.evalSpec(fc.entry, ex, sc)
+				fc.noOblig--
+				if v.Typ != nil {
+					return fc.sortOf(v.Typ), v.Typ
+				}
+			}
+		}
 		panic(engineError{"typeof: unknown local " + vn})
 	}
 	if strings.HasPrefix(name, "map[") {
